@@ -535,6 +535,10 @@ class TermCanvas(Canvas):
                 # ignore commands that don't match the
                 # unpacked tuples in CSI_COMMANDS.
 
+            if char not in b"mhlnqcg":
+                # cursor movement, erasing and editing end the pending wrap at the last column
+                self.is_rotten_cursor = False
+
     def parse_noncsi(self, char: bytes, mod: bytes = b"") -> None:
         """
         Parse escape sequences which are not CSI.
@@ -550,6 +554,7 @@ class TermCanvas(Canvas):
         elif mod in {b"(", b")"}:  # define G0/G1
             self.set_g01(char, mod)
         elif char == b"M":  # reverse line feed
+            self.is_rotten_cursor = False
             self.linefeed(reverse=True)
         elif char == b"D":  # line feed
             self.linefeed()
@@ -705,6 +710,7 @@ class TermCanvas(Canvas):
         elif not dc and char == b"\t":  # char tab
             self.tab()
         elif not dc and char == b"\b":  # backspace BS
+            self.is_rotten_cursor = False
             if x > 0:
                 self.set_term_cursor(x - 1, y)
         elif not dc and char == b"\a" and self.parsestate != 2:  # BEL
@@ -786,6 +792,7 @@ class TermCanvas(Canvas):
         self.set_term_cursor(x, y)
 
     def carriage_return(self) -> None:
+        self.is_rotten_cursor = False
         self.set_term_cursor(0, self.term_cursor[1])
 
     def newline(self) -> None:
